@@ -1979,6 +1979,7 @@ impl Interp {
             ("inject", a) => self.op_inject(a),
             ("x-w2d", a) => self.op_ext_w2d(a), // ext w2d (single dispatch line)
             ("late-release", [ns]) => self.op_late_release(ns), // ext w2c (single dispatch line)
+            ("write-bg", a) | ("join", a) => self.op_bg(op, a), // ext2 w2c (single dispatch line)
             ("timers", []) => {
                 let v = sim::with(|w| std::mem::take(&mut w.timer_requests));
                 Ok(format!("ok {} {}", v.len(), v.iter().map(|(t, d)| format!("{}:{}", t - sim::EPOCH_NS, d)).collect::<Vec<_>>().join(" ")).trim_end().to_string())
@@ -2277,6 +2278,69 @@ impl Interp {
     }
 }
 // ---- END ext w2d ----
+
+// ---- BEGIN ext2 w2c
+// Two API calls in flight (needed for "the instance of a BLOCKED write is unregistered", C27): the scenario
+// language runs one call at a time because `write` blocks the driver until it is answered.
+//   `write-bg <w> <id> <value> [ts=<ns>]`  starts the write exactly like `write` (same mails), lets the world settle at
+//        the CURRENT virtual time and leaves the call pending if it was not answered; answer `ok`. Only one at a time.
+//   `join`                                  waits (virtual time passes) for the answer of that call and prints it:
+//        `ok` / `err:<Kind>`; `bad-op` when no call is outstanding.
+// API futures are not Send, so the pending future lives in a thread-local of the driver thread.
+type BgFuture = std::pin::Pin<Box<dyn Future<Output = Result<String, String>>>>;
+thread_local! {
+    static BG_CALL: std::cell::RefCell<Option<BgFuture>> = const { std::cell::RefCell::new(None) };
+}
+struct BgFlag(std::sync::atomic::AtomicBool);
+impl std::task::Wake for BgFlag {
+    fn wake(self: Arc<Self>) {
+        self.0.store(true, std::sync::atomic::Ordering::SeqCst);
+    }
+}
+impl Interp {
+    fn op_bg(&mut self, op: &str, toks: &[&str]) -> Res {
+        if op == "join" {
+            if !toks.is_empty() {
+                return Err("usage: join".into());
+            }
+            let Some(fut) = BG_CALL.with(|c| c.borrow_mut().take()) else { return Err("no call is outstanding".into()) };
+            return Ok(blk(fut)??);
+        }
+        if BG_CALL.with(|c| c.borrow().is_some()) {
+            return Err("a background call is already outstanding".into());
+        }
+        let (plain, mut kv) = split_kv(toks);
+        let [name, id, val] = plain[..] else { return Err("usage: write-bg <writer> <id> <value> [ts=<ns>]".into()) };
+        let id: i32 = id.parse().map_err(|_| "bad id".to_string())?;
+        let ts = take_kv(&mut kv, "ts").map(|v| v.parse::<i128>().map(time_at).map_err(|_| "bad ts".to_string())).transpose()?;
+        if !kv.is_empty() {
+            return Err(format!("unknown option {}", kv[0].0).into());
+        }
+        let w = self.writer(name)?;
+        let val = val.to_string();
+        let mut fut: BgFuture = Box::pin(async move { each_w!(&w, d => do_write(d, WriteOp::Write, id, &val, ts, None).await) });
+        let flag = Arc::new(BgFlag(std::sync::atomic::AtomicBool::new(true)));
+        let waker = std::task::Waker::from(flag.clone());
+        let mut cx = std::task::Context::from_waker(&waker);
+        let mut done: Option<Result<String, String>> = None;
+        // poll whenever the call was woken (each poll may send the next mail), settle in between, never advance time
+        while flag.0.swap(false, std::sync::atomic::Ordering::SeqCst) {
+            if let std::task::Poll::Ready(v) = fut.as_mut().poll(&mut cx) {
+                done = Some(v);
+                break;
+            }
+            sim::settle().map_err(Fail::Stop)?;
+        }
+        sim::settle().map_err(Fail::Stop)?;
+        match done {
+            // answered at once: keep the answer for `join`
+            Some(v) => BG_CALL.with(|c| *c.borrow_mut() = Some(Box::pin(async move { v }))),
+            None => BG_CALL.with(|c| *c.borrow_mut() = Some(fut)),
+        }
+        Ok("ok".into())
+    }
+}
+// ---- END ext2 w2c
 
 // ------------------------------------------------------------------------------------------------ supervisor
 
